@@ -1,5 +1,5 @@
 (* C02 -- encoding then decoding a well-formed message returns the same message. *)
-From NV Require Import Lib.Base Codec.Lang Codec.Def Codec.Sem Codec.Total Codec.Dispatch Codec.GenDefs Codec.WF Codec.RoundTrip Codec.Final
+From NV Require Import Lib.Base Codec.Lang Codec.Def Codec.Sem Codec.Total Codec.Dispatch Codec.GenDefs Codec.WF Codec.RoundTrip Codec.Stmt Codec.StmtProofs Codec.Final
   Gen.GenMsgs Gen.GenTypes.
 From Coq Require Import String.
 Open Scope N_scope.
@@ -38,6 +38,17 @@ Example C02_example :
   end.
 Proof. vm_compute. repeat split. Qed.
 
+(* on the transliterated programs run statement by statement (Codec/Stmt.v) *)
+Theorem C02_roundtrip_programs : forall g m, In g all_msgs -> wf_msgb (def_of nas_types g) m = true ->
+  exists bs, exec_enc nas_types g m = Ok bs /\ exec_dec nas_types g bs = Ok m.
+Proof. exact program_roundtrip. Qed.
+
+Theorem C02_programs_are_encode_def : forall g m, In g all_msgs ->
+  exec_enc nas_types g m = encode_def (def_of nas_types g) m.
+Proof. exact generated_encoder. Qed.
+
 Print Assumptions C02_all_defs_ok.
 Print Assumptions C02_roundtrip.
 Print Assumptions C02_roundtrip_msg.
+Print Assumptions C02_roundtrip_programs.
+Print Assumptions C02_programs_are_encode_def.
